@@ -736,6 +736,17 @@ class Interp:
                 vals = list(val)
             else:
                 raise Unsupported("unpacking " + canon(val), tgt)
+            stars = [i for i, t in enumerate(tgt.elts) if isinstance(t, ast.Starred)]
+            if len(stars) == 1 and len(vals) >= len(tgt.elts) - 1:
+                i = stars[0]
+                n_after = len(tgt.elts) - i - 1
+                mid = vals[i:len(vals) - n_after]
+                for t, v in zip(tgt.elts[:i], vals[:i]):
+                    self.assign(t, v, env)
+                self.assign(tgt.elts[i].value, PList(list(mid)), env)
+                for t, v in zip(tgt.elts[i + 1:], vals[len(vals) - n_after:] if n_after else []):
+                    self.assign(t, v, env)
+                return
             if len(vals) != len(tgt.elts):
                 raise Unsupported("unpack arity mismatch", tgt)
             for t, v in zip(tgt.elts, vals):
@@ -1330,7 +1341,14 @@ class Interp:
         args = []
         for a in e.args:
             if isinstance(a, ast.Starred):
-                raise Unsupported("star args", e)
+                sv = self.eval(a.value, env)
+                if isinstance(sv, PList):
+                    args.extend(sv.items)
+                elif isinstance(sv, tuple):
+                    args.extend(sv)
+                else:
+                    raise Unsupported("star args of " + canon(sv), e)
+                continue
             args.append(self.eval(a, env))
         kwargs = {}
         for k in e.keywords:
@@ -1388,6 +1406,9 @@ class Interp:
             return Rat.atom(("len", canon(v)))
         if dotted == "isinstance":
             return self.do_isinstance(args, e, env)
+        if dotted == "setattr" and len(args) == 3 and isinstance(args[0], Obj) and isinstance(args[1], str):
+            args[0].attrs[args[1]] = args[2]
+            return None
         if dotted == "hasattr":
             v = args[0]
             if isinstance(v, Rat) and args[1] == "varValue":
@@ -1472,6 +1493,8 @@ class Interp:
         v, t = args
         tn = t.name if isinstance(t, Opaque) else canon(t)
         if isinstance(v, Rat):
+            if tn == "str":
+                return False
             if v.vars():
                 return tn in ("LpAffineExpression", "pulp.LpAffineExpression", "LpVariable")
             if tn in ("float", "int"):
